@@ -1,5 +1,6 @@
 import TomlVerif.Driver.C10
 import TomlVerif.Driver.C12
+import TomlVerif.Driver.C11
 
 open TomlVerif
 
@@ -7,6 +8,7 @@ def dispatch (mode : String) (line : String) : String :=
   match mode with
   | "c10" => Driver.c10 line
   | "c12" => Driver.c12 line
+  | "c11" => Driver.c11 line
   | _ => "bad-mode"
 
 partial def loop (mode : String) (h : IO.FS.Stream) (out : IO.FS.Stream) : IO Unit := do
